@@ -4,4 +4,7 @@ pub mod c01;
 pub mod c05;
 pub mod c06;
 pub mod c11;
+pub mod c12;
+pub mod c13;
+pub mod c14;
 pub mod c15;
